@@ -29,8 +29,8 @@ import (
 // archive, node defaults, ...).
 
 const (
-	coldSlots   = 24    // churn slots 0x100.. : empty in the genesis state
-	presetSlots = 8     // churn slots 0x200.. : hold a value in the genesis state (i.e. in the generated disk layer)
+	coldSlots   = 40    // churn slots 0x100.. : empty in the genesis state
+	presetSlots = 12    // churn slots 0x200.. : hold a value in the genesis state (i.e. in the generated disk layer)
 	coldBase    = 0x100 //
 	presetBase  = 0x200 //
 )
@@ -89,7 +89,7 @@ func drawLongPlan(r *rand.Rand, quick bool) *longPlan {
 	if !quick {
 		L = 180 + r.Intn(120)
 	}
-	p := &longPlan{Heights: L, BallastUntil: L - 128, BallastN: uint64(2500 + r.Intn(1500)), Restart: map[int][]int{}, events: map[int][]longEvent{}}
+	p := &longPlan{Heights: L, BallastUntil: L - 128, BallastN: uint64(3600 + r.Intn(1000)), Restart: map[int][]int{}, events: map[int][]longEvent{}}
 	gap := func() int {
 		if r.Intn(3) == 0 {
 			return 1 + r.Intn(3)
@@ -147,30 +147,37 @@ func drawLongPlan(r *rand.Rand, quick bool) *longPlan {
 		}
 		churn(tail(), "churn-read", s, 0, false)
 	}
-	// the factory's children: salt 0 exists at genesis (with storage), salt 1 is created early
+	// the factory's planned children: even salts exist at genesis (with storage), odd ones are created in the first blocks
 	ph := func(h int, op string, salt uint64, from int) { p.add(h, longEvent{From: from, Op: op, Salt: salt}) }
-	ph(1+r.Intn(4), "create", 1, r.Intn(3))
-	for salt := uint64(0); salt < 2; salt++ {
+	for salt := uint64(2); salt < nSalts; salt++ {
 		from := r.Intn(3)
-		t := 6 + r.Intn(35)
-		switch r.Intn(4) {
+		if salt%2 == 1 {
+			ph(1+r.Intn(4), "create", salt, from)
+		}
+		t := 7 + r.Intn(35)
+		if r.Intn(2) == 0 {
+			ph(t-1, "poke", salt, from) // in use before
+		}
+		t2 := tail() - 1
+		switch r.Intn(6) {
 		case 0: // dies and is re-created in the same block, early
 			ph(t, "kill", salt, from)
 			ph(t, "create", salt, from)
 			ph(t, "poke", salt, from)
 			ph(tail(), "poke", salt, from)
-		case 1: // dies early, is re-created after its destruction was merged into the disk layer
+		case 1, 2: // dies early, is re-created after its destruction was merged into the disk layer
 			ph(t, "kill", salt, from)
-			t2 := tail() - 1
 			ph(t2, "create", salt, from)
 			ph(t2+1, "poke", salt, from)
-		case 2:
+		case 3: // dies early, is called (an empty account by then) much later
+			ph(t, "kill", salt, from)
+			ph(tail(), "poke", salt, from)
+		case 4:
 			ph(t, "kill", salt, from)
 			t += gap()
 			ph(t, "create", salt, from)
 			ph(t, "poke", salt, from)
 			ph(t+gap(), "kill", salt, from)
-			t2 := tail() - 1
 			ph(t2, "create", salt, from)
 			ph(t2+1, "poke", salt, from)
 		default: // lives on: used, cleared, used again much later
@@ -178,7 +185,7 @@ func drawLongPlan(r *rand.Rand, quick bool) *longPlan {
 			ph(t+gap(), "clear", salt, from)
 			ph(tail(), "poke", salt, from)
 		}
-		if r.Intn(2) == 0 { // late: dies and is re-created in one block when everything it ever wrote is long on disk
+		if r.Intn(3) == 0 { // late: dies and is re-created in one block when everything it ever wrote is long on disk
 			t3 := L - 12 - r.Intn(20)
 			ph(t3, "create", salt, from) // (fails if alive)
 			ph(t3+1, "kill", salt, from)
@@ -244,9 +251,12 @@ func trackedSlots() []uint64 {
 
 func newLongObserver(run *core.Run, ch0 *chainkit.Chain) *longObserver {
 	lo := &longObserver{run: run, roots: map[common.Hash]int{ch0.State.AppHash: 0, rawdb.ReadAppHash(ch0.N.DB, 0): 0}, val: map[uint64]common.Hash{}, setAt: map[uint64]int{}, clearedAt: map[uint64]int{},
-		wasOnDisk: map[uint64]bool{}, bornAt: map[common.Address]int{childAddr(0): 0}, deadSince: map[common.Address]int{}}
+		wasOnDisk: map[uint64]bool{}, bornAt: map[common.Address]int{}, deadSince: map[common.Address]int{}}
 	for k := uint64(0); k < presetSlots; k++ {
 		lo.val[presetBase+k] = slotKey(0x50 + k)
+	}
+	for s := uint64(0); s < nSalts; s += 2 {
+		lo.bornAt[childAddr(s)] = 0
 	}
 	if d, ok := lo.roots[rawdb.ReadSnapshotRoot(ch0.N.DB)]; ok {
 		lo.disk = d
